@@ -881,6 +881,7 @@ func (w *Walker) write(loc string, kind int, idx, val *Term, st *State, at ast.N
 		site.Store |= kind
 		w.A.snap(site, st, nil, nil, val, idx)
 	}
+	st.logEv("write:" + loc)
 	applyKill(st, loc, kind, idx)
 	if w.trackFields && idx == nil && val != nil {
 		if st.FieldVal == nil {
